@@ -28,7 +28,7 @@ PATTERNS = [
     None,
     ((1,), {}), ((1.0,), {}), ((True,), {}), (("1",), {}), ((1, 2), {}), ((1.0, 2.0), {}),
     (((1, 2),), {}), (((1.0, 2.0),), {}), ((None,), {}), ((), {"a": 1, "b": 2}), ((), {"b": 2, "a": 1}),
-    ((1,), {"b": 2}), ((), {}), ((2,), {}), ((3,), {}), ((), {"a": 1.0, "b": 2}),
+    ((1,), {"b": 2}), ((), {}), ((2,), {}), ((3,), {}), ((), {"a": 1.0, "b": 2}), (([1],), {}),
 ]
 
 
@@ -167,7 +167,7 @@ TIERS = {
     "quick": [
         (2, False, [1, 2, 3, 14], "func", 5), (2, True, [1, 2, 3, 5, 6], "func", 4),
         (1, False, [1, 4, 9, 13], "func", 5), (None, False, [5, 6, 7, 8, 12, 13], "func", 4),
-        (0, False, [1, 2], "func", 4), (-1, True, [1, 14], "func", 4),
+        (0, False, [1, 2, 17], "func", 4), (-1, True, [1, 14], "func", 4), (2, False, [1, 17, 14], "func", 4), (None, True, [1, 17], "method", 3),
         (3, False, [10, 11, 12, 16, 5], "func", 4), (3, True, [10, 16, 12, 11], "func", 4), (2, False, [1, 2, 14], "method", 4),
         (128, False, [1, 2, 3, 14, 15], "bare", 4), (None, False, [1, 2, 3, 13], "cache", 4), (128, True, [1, 2, 3, 5], "direct", 4),
         (2, False, [1, 14], "classmethod", 4), (2, True, [1, 2], "staticmethod", 4),
@@ -176,7 +176,7 @@ TIERS = {
         (2, False, [1, 2, 3, 14, 15, 4], "func", 6), (2, True, [1, 2, 3, 5, 6, 14], "func", 6),
         (3, False, [1, 2, 3, 14, 15, 9, 13], "func", 6), (1, False, [1, 4, 9, 13, 14], "func", 6),
         (None, False, [5, 6, 7, 8, 12, 1, 2], "func", 5), (None, True, [1, 2, 3, 7, 8, 10, 16], "func", 5),
-        (0, False, [1, 2, 3], "func", 5), (-1, True, [1, 14, 2], "func", 5), (5, False, list(range(1, 17)), "func", 4),
+        (0, False, [1, 2, 3, 17], "func", 5), (-1, True, [1, 14, 2], "func", 5), (2, False, [1, 17, 14, 2], "func", 5), (None, True, [1, 17, 2], "method", 4), (5, False, list(range(1, 17)), "func", 4),
         (3, False, [10, 11, 12, 16, 5, 6], "func", 5), (3, True, [10, 11, 12, 16, 5, 6], "func", 5),
         (2, False, [1, 2, 14, 15], "method", 5), (2, True, [1, 2, 3], "method", 5),
         (128, False, [1, 2, 3, 14, 15, 4], "bare", 5), (None, False, [1, 2, 3, 4, 9], "cache", 5), (128, True, [1, 2, 3, 5, 6, 14], "direct", 5),
@@ -268,6 +268,15 @@ def replay_path(args):
             if r1 != r2 and inv1 == exp_inv:
                 bad("wrong-result" if r1[0] == r2[0] else "error-" + ("swallowed" if r1[0] == "ok" else "raised"), step,
                     {"expected": r2, "observed": r1, "op": [op, p, n]})
+        elif op == "typeerror":
+            r1, inv1 = real.call(p, n)
+            rt, inv2 = twin.call(p, n)
+            trace.append({"op": "typeerror", "p": p, "n": n, "inv": inv1, "failed": False})
+            if (rt[0], inv2) != ("raised:TypeError", False) and not twin.discarded:
+                raise MachineryError(f"Lru spec disagrees with functools on the unhashable argument: {rt}, invoked={inv2}")
+            if (r1[0], inv1) != ("raised:TypeError", False):
+                bad("unhashable-argument-" + ("invokes-the-function" if inv1 else r1[0].replace(":", "-")), step,
+                    {"expected": ["raised:TypeError", False], "observed": [r1[0], inv1], "op": [op, p, n]})
         elif op == "clear":
             real.clear()
             twin.clear()
@@ -328,7 +337,7 @@ def random_history(args):
     real = Sys("asyncstdlib", form, maxsize, typed)
     twin = Sys("functools", form, maxsize, typed)
     ev, viol = [], []
-    pats = rnd.sample(range(1, 17), rnd.randint(3, 9))
+    pats = rnd.sample(range(1, 18), rnd.randint(3, 9))
     discarded = False
     for j in range(length):
         x = rnd.random()
@@ -339,6 +348,8 @@ def random_history(args):
             twin.clear()
             rec = {"op": "clear", "p": 0, "n": 0, "inv": False, "failed": False}
         elif x < 0.12:
+            if p == 17:
+                continue
             real.discard(p, n)
             discarded = True
             rec = {"op": "discard", "p": p, "n": n, "inv": False, "failed": False}
@@ -346,6 +357,8 @@ def random_history(args):
             fail = rnd.random() < 0.1
             r1, inv1 = real.call(p, n, fail=fail)
             rec = {"op": "call", "p": p, "n": n, "inv": inv1, "failed": r1[0] == "boom"}
+            if r1[0] == "raised:TypeError" and p == 17:
+                rec["op"] = "typeerror"
             if not discarded:
                 r2, inv2 = twin.call(p, n, fail=fail)
                 if (r1, inv1) != (r2, inv2):
